@@ -402,6 +402,11 @@ def run(model: RepoModel, rep, tier: str):
                         "positional parameters and the tail slice of the remaining positional arguments continue exactly where the first loop stopped, "
                         "so the parameter in between receives no argument state and no argument-to-parameter flow edge", 2)
     check_index_partitions(model, rep, "C10.R9", ["core/stmt_states.py"])
+    from ..generic3 import check_positional_records, check_enum_distinct
+    rep.rule("C10.R11", "what a method summary records survives its copy: records built positionally from same-named attributes put argument i into "
+                        "field i (the top-down phase works on copies of the summaries), and the kinds of state-flow edges and nodes are distinct numbers", 4)
+    check_positional_records(model, rep, "C10.R11", ["common_structs.py"] + sorted(r for r in model.modules if r.startswith("core/")))
+    check_enum_distinct(model, rep, "C10.R11", "config/constants.py", ["SFG_EDGE_KIND", "SFG_NODE_KIND", "STATE_TYPE_KIND"])
     # ------------------------------------------------------------------ R10 the graph is read-only for the taint phase
     rep.rule("C10.R10", "the taint phase writes only to objects it creates: an attribute store on a local is a store into an object constructed in "
                         "that function or returned to it by a method of the phase that constructs it -- never into a node, an edge weight or a rule "
